@@ -221,7 +221,9 @@ ApplyFree(e) ==
            LET h == [kind |-> IF Len(e.data) >= 12 /\ e.data[1] % 16 = 3 THEN "eoma" ELSE "msg", tag |-> e.tag, pgn |-> e.pgn, sa |-> e.sa, data |-> e.data]
                d2 == DmDeliver(dm, Tr.cfg, n, h)
            IN S(ns, pc, pend, d2.dm, bm, d2.bad)
-      [] e.ev = "abs" -> S([ns EXCEPT ![n].snd = e.snd, ![n].rcv = e.rcv, ![n].mpg = e.mpg], pc, pend, dm, bm, {})
+      [] e.ev = "abs" -> S([ns EXCEPT ![n].snd = e.snd, ![n].rcv = e.rcv, ![n].mpg = e.mpg,
+                                      ![n].poolCm = [i \in 1..Len(e.poolCm) |-> e.poolCm[i] = 1],
+                                      ![n].poolBam = [i \in 1..Len(e.poolBam) |-> e.poolBam[i] = 1]], pc, pend, dm, bm, {})
       [] e.ev = "jobdead" -> Fail("job thread died")
       [] e.ev = "spin" -> Fail("job thread busy-spins")
       [] OTHER -> S(ns, pc, pend, dm, bm, {})
@@ -248,7 +250,11 @@ Step ==
                     (IF \E n \in Nodes \ silent : r.pend[n] # <<>> THEN {"predicted output never happened"}
                      ELSE DmFinal(r.dm, Tr) \cup BmFinal(r.bm, Tr) \cup Bm22Final(r.bm, r.dm.acc, Tr) \cup
                           (IF Tr.expect.idle /\ \E n \in Nodes \ silent : r.ns[n].snd # <<>> \/ r.ns[n].rcv # <<>> \/ r.ns[n].mpg # <<>>
-                           THEN {"sessions left open at the end"} ELSE {}))
+                           THEN {"sessions left open at the end"} ELSE {}) \cup
+                          (IF Tr.expect.idle /\ \E n \in Nodes \ silent :
+                                 \/ \E i \in DOMAIN r.ns[n].poolCm : ~r.ns[n].poolCm[i]
+                                 \/ \E i \in DOMAIN r.ns[n].poolBam : ~r.ns[n].poolBam[i]
+                           THEN {"session numbers still allocated at the end (capacity lost)"} ELSE {}))
                  ELSE r.bad
        /\ l' = IF retry THEN l ELSE IF r.bad = {} THEN l + 1 ELSE l
     /\ silent' = IF Ev[l].ev = "silence" THEN silent \cup {Ev[l].node} ELSE silent
